@@ -157,12 +157,23 @@ func (c *Ctx) accumulatorWidth(f *ssa.Function) {
 	n := 0
 	allInstrs(f, func(b *ssa.BasicBlock, in ssa.Instruction) {
 		sh, ok := in.(*ssa.BinOp)
-		if !ok || sh.Op != token.SHL || !inLoop(b) {
+		if !ok || (sh.Op != token.SHL && sh.Op != token.MUL) || !inLoop(b) {
 			return
 		}
 		s, ok := constInt(sh.Y)
 		if !ok || s <= 0 {
 			return
+		}
+		if sh.Op == token.MUL {
+			// acc * 2^k is acc << k (res *= 256 and res = res<<8 are one idiom)
+			k := int64(0)
+			for v := s; v > 1 && v%2 == 0; v /= 2 {
+				k++
+			}
+			if k == 0 || int64(1)<<uint(k) != s {
+				return
+			}
+			s = k
 		}
 		acc, ok := sh.X.(*ssa.Phi)
 		if !ok || !isInteger(acc.Type()) || !isUnsigned(acc.Type()) || intBits(acc.Type()) != 64 {
@@ -220,6 +231,50 @@ func (c *Ctx) accumulatorWidth(f *ssa.Function) {
 		p := c.newProver(f, hdr)
 		okB := p.prove(p.lin(cmp.Y).scale(-s).addConst(64))
 		if !okB {
+			// an unexported helper whose count is a parameter: bounded when every call site passes a count
+			// its own guards (or a constant) bound
+			if h := plainHelper(f); h != nil && !gAddrTaken[h] && len(gCallSites[h]) > 0 {
+				if prm, ok := stripConv(cmp.Y).(*ssa.Parameter); ok && prm.Parent() == f {
+					idx := -1
+					for i, q := range f.Params {
+						if q == prm {
+							idx = i
+						}
+					}
+					all := idx >= 0
+					for _, site := range gCallSites[h] {
+						sf := site.Parent()
+						if !all || idx >= len(site.Common().Args) || sf == nil {
+							all = false
+							break
+						}
+						q := c.newProver(sf, site.Block())
+						arg := site.Common().Args[idx]
+						if !q.prove(q.lin(arg).scale(-s).addConst(64)) {
+							// one more level: the caller is itself a helper that passes its own parameter on
+							if prm2, ok := stripConv(arg).(*ssa.Parameter); ok && plainHelper(sf) != nil && len(gCallSites[plainHelper(sf)]) > 0 {
+								i2 := -1
+								for i, q2 := range sf.Params {
+									if q2 == prm2 {
+										i2 = i
+									}
+								}
+								for _, s2 := range gCallSites[plainHelper(sf)] {
+									q2 := c.newProver(s2.Parent(), s2.Block())
+									if i2 < 0 || i2 >= len(s2.Common().Args) || !q2.prove(q2.lin(s2.Common().Args[i2]).scale(-s).addConst(64)) {
+										all = false
+									}
+								}
+								continue
+							}
+							all = false
+						}
+					}
+					okB = all
+				}
+			}
+		}
+		if !okB {
 			if why, ok := excLookupS(excAccum, key); ok {
 				c.exc(R, key+" fits 64 bits", sh.Pos(), why)
 				return
@@ -251,7 +306,9 @@ func (c *Ctx) accumulatorWidth(f *ssa.Function) {
 	})
 }
 
-var excAccum = map[string]string{}
+var excAccum = map[string]string{
+	"boc.readNBytesUIntFromArray: accumulator << 8": "n is a constant (1, 2) or one of the two byte widths of the bag-of-cells header: sizeBytes, refused by parseBocHeader unless 1..4, and offsetBytes, refused unless 1..8 (E5.boc-header reads both guards); deserializeCellData receives the validated sizeBytes through the header struct, which the prover does not follow",
+}
 
 // enumTables: a named basic type whose MarshalTLB is a switch over its constants, each writing a
 // constant tag, and whose UnmarshalTLB reads a tag and switches back, carries two tables. They
